@@ -52,6 +52,9 @@ type World struct {
 	fail  map[string]*failSpec
 	rec   *Recorder
 
+	mwArmed   int           // number of runs the holding middleware will still hold
+	mwRelease chan struct{} // closed by the script to let held runs continue
+
 	tickBudget  int // number of short (3 ms) timers the tick resolver may still arm
 	shortTimers int // short timers armed and neither fired nor stopped
 	nextRes     int
@@ -360,6 +363,7 @@ func Schema() *graphql.Schema {
 		sb.Object("Inner", Inner{})
 		m := sb.Mutation()
 		m.FieldFunc("setA", func(ctx context.Context, args struct{ Value int64 }) (int64, error) {
+			mutExec(ctx, "setA")
 			w := worldOf(ctx)
 			w.mu.Lock()
 			w.A = args.Value
@@ -368,6 +372,7 @@ func Schema() *graphql.Schema {
 			return args.Value, nil
 		})
 		m.FieldFunc("setS", func(ctx context.Context, args struct{ Value string }) (string, error) {
+			mutExec(ctx, "setS")
 			w := worldOf(ctx)
 			w.mu.Lock()
 			w.S = args.Value
@@ -376,14 +381,72 @@ func Schema() *graphql.Schema {
 			return args.Value, nil
 		})
 		m.FieldFunc("failSafe", func(ctx context.Context) (int64, error) {
+			mutExec(ctx, "failSafe")
 			return 0, graphql.NewSafeError("mutation refused")
 		})
 		m.FieldFunc("failPlain", func(ctx context.Context) (int64, error) {
+			mutExec(ctx, "failPlain")
 			return 0, fmt.Errorf("mutation broke")
 		})
 		schema = sb.MustBuild()
 	})
 	return schema
+}
+
+// mutExec records that a mutation resolver ran, and in which computation.
+func mutExec(ctx context.Context, field string) {
+	w := worldOf(ctx)
+	if w == nil {
+		return
+	}
+	e := Event{Kind: "mutexec", Field: field, Run: -1, Gen: -1}
+	if tok, _ := ctx.Value(runKey{}).(*RunTok); tok != nil {
+		e.Run, e.Gen = tok.N, tok.Gen
+	}
+	w.rec.add(e)
+}
+
+// UserMiddleware is the i-th middleware an application registered with conn.Use. The one at position
+// holdAt holds a run (when armed by the script) until it is released, its context is cancelled, or 600 ms
+// have passed - a slow middleware.
+func (w *World) UserMiddleware(i, holdAt int) graphql.MiddlewareFunc {
+	return func(input *graphql.ComputationInput, next graphql.MiddlewareNextFunc) *graphql.ComputationOutput {
+		if i == holdAt {
+			w.mu.Lock()
+			var rel chan struct{}
+			if w.mwArmed > 0 {
+				w.mwArmed--
+				rel = w.mwRelease
+			}
+			w.mu.Unlock()
+			if rel != nil {
+				w.rec.add(Event{Kind: "blocked", Field: "middleware"})
+				select {
+				case <-rel:
+				case <-input.Ctx.Done():
+				case <-time.After(600 * time.Millisecond):
+				}
+			}
+		}
+		return next(input)
+	}
+}
+
+func (w *World) ArmMiddleware(n int) {
+	w.mu.Lock()
+	w.mwArmed = n
+	w.mwRelease = make(chan struct{})
+	w.mu.Unlock()
+}
+
+func (w *World) ReleaseMiddleware() {
+	w.mu.Lock()
+	if w.mwRelease != nil {
+		close(w.mwRelease)
+		w.mwRelease = nil
+	}
+	w.mwArmed = 0
+	w.mu.Unlock()
 }
 
 // Queries the generator draws from (index = the case's "q").
